@@ -50,8 +50,13 @@ void run_unknown_runtime_cases() {
         if (ri >= 5) levels.push_back("precond.relax.solve");
         Case c("unknown_runtime", idx, J().s("coarsening", cn).s("relax", rn).s("solver", sn).bl("runtime_preconditioner", viaclass).n("levels", levels.size()));
         auto build = [&](const ptree &tt) { if (viaclass) { RTP s(A.tie(), tt); } else { RTS s(A.tie(), tt); } };
+        // The documented-keys-only tree is built first.  An exception here comes from the numerical setup on this matrix (seen: 'Zero diagonal in
+        // skyline_lu' with smoothed_aggr_emin, the C02/C03 known finding), not from parameter handling: C14 does not state that every setup
+        // succeeds, so the hook cannot be evaluated on this case -- it is counted and skipped.  An exception that appears only WITH the extra key
+        // (below) is still a failure: an unknown key must not change behaviour.
+        try { unknown_log().clear(); build(t); }
+        catch (const std::exception &ex) { vf::obs_sum("unknown_runtime_setup_exception_cases"); vf::obs_add("unknown_runtime_setup_exceptions", cn + ":" + ex.what()); continue; }
         try {
-            unknown_log().clear(); build(t);
             std::string unk; for (auto &u : unknown_log()) unk += u + " ";
             c.check(unknown_log().empty(), "unknown:runtime:valid-key-reported-unknown", "documented keys reported: " + unk);
             for (auto &lvl : levels) {
